@@ -624,7 +624,7 @@ func dedupCands(cs []symex.Candidate) []symex.Candidate {
 			ks = append(ks, k+"="+v)
 		}
 		sort.Strings(ks)
-		key := c.Site + "|" + c.Known + "|" + strings.Join(ks, ";")
+		key := c.Site + "|" + c.Known + "|" + strings.Join(ks, ";") + "|" + c.Choices
 		if seen[key] >= 1 {
 			continue
 		}
